@@ -23,14 +23,18 @@ import (
 
 // ---------- replayable description of a case ----------
 
-// GV is a Go value handed to an event method: K = "f" float64, "i" int, "s" string, "del" res.DeleteAction.
+// GV is a Go value handed to an event method: K = "f" float64, "i" int, "s" string, "null" nil,
+// "b" bool, "arr" []interface{} of float64, "del" res.DeleteAction.
 type GV struct {
 	K string `json:"k"`
 	N int    `json:"n,omitempty"`
 	S string `json:"s,omitempty"`
+	B bool   `json:"b,omitempty"`
+	A []int  `json:"a,omitempty"`
 }
 
-// Res is a resource value: a model (property -> float64 | string) or a collection of such values.
+// Res is a resource value: a model (property -> float64 | string | nil | bool | []interface{} of float64)
+// or a collection of such values.
 type Res struct {
 	Model map[string]interface{} `json:"model,omitempty"`
 	Coll  []interface{}          `json:"collection,omitempty"`
@@ -158,8 +162,25 @@ func (g GV) goVal() interface{} {
 		return g.N
 	case "s":
 		return g.S
+	case "null":
+		return nil
+	case "b":
+		return g.B
+	case "arr":
+		a := make([]interface{}, len(g.A))
+		for i, x := range g.A {
+			a[i] = float64(x)
+		}
+		return a
 	}
 	return res.DeleteAction
+}
+func nlist(a []int) string {
+	p := make([]string, len(a))
+	for i, x := range a {
+		p[i] = N(x)
+	}
+	return List(p)
 }
 func (g GV) coq() string {
 	switch g.K {
@@ -167,6 +188,12 @@ func (g GV) coq() string {
 		return "GNum " + N(g.N)
 	case "i":
 		return "GInt " + N(g.N)
+	case "null":
+		return "GNull"
+	case "b":
+		return "GBool " + Bool(g.B)
+	case "arr":
+		return "GArr " + nlist(g.A)
 	default:
 		return "GStr " + B(g.S)
 	}
@@ -180,14 +207,29 @@ func (g GV) act() string {
 func (g GV) isNum() bool { return g.K == "f" || g.K == "i" }
 
 // jv renders a decoded JSON scalar as a Coq jval; ok=false when it is outside the modelled domain
+func smallNat(v float64) bool { return v >= 0 && v == float64(int(v)) && v < 1e9 }
 func jv(x interface{}) (string, bool) {
 	switch v := x.(type) {
+	case nil:
+		return "JNull", true
+	case bool:
+		return "(JBool " + Bool(v) + ")", true
 	case float64:
-		if v >= 0 && v == float64(int(v)) && v < 1e9 {
+		if smallNat(v) {
 			return "(JNum " + N(int(v)) + ")", true
 		}
 	case string:
 		return "(JStr " + B(v) + ")", true
+	case []interface{}:
+		a := make([]int, len(v))
+		for i, e := range v {
+			f, ok := e.(float64)
+			if !ok || !smallNat(f) {
+				return "", false
+			}
+			a[i] = int(f)
+		}
+		return "(JArr " + nlist(a) + ")", true
 	}
 	return "", false
 }
@@ -853,6 +895,8 @@ type viewInfo struct {
 	coll   bool
 	n      int
 	keys   []string
+	vals   map[string]interface{}
+	nulls  []string // properties whose value is null
 }
 
 func viewOf(g string, raw []byte) viewInfo {
@@ -874,10 +918,15 @@ func viewOf(g string, raw []byte) viewInfo {
 			vi.coll = true
 			vi.n = len(v)
 		case map[string]interface{}:
-			for k := range v {
+			vi.vals = v
+			for k, x := range v {
 				vi.keys = append(vi.keys, k)
+				if x == nil {
+					vi.nulls = append(vi.nulls, k)
+				}
 			}
 			sort.Strings(vi.keys)
+			sort.Strings(vi.nulls)
 		}
 	}
 	return vi
@@ -888,18 +937,42 @@ func viewOf(g string, raw []byte) viewInfo {
 var keyPool = []string{"a", "b", "c"}
 var strPool = []string{"", "x", "y"}
 
+// genScalar draws a JSON value; for a float64-typed handler mostly numbers
 func genScalar(r *Rng, c CfgD) interface{} {
-	str := 50
+	other := 60
 	if c.Ty == "num" {
-		str = 6
+		other = 7
 	}
-	if r.Chance(str) {
+	if !r.Chance(other) {
+		return float64(r.Intn(4))
+	}
+	switch k := r.Intn(100); {
+	case k < 45:
 		return r.Pick(strPool)
+	case k < 75:
+		return nil
+	case k < 90:
+		return r.Bool()
+	default:
+		a := make([]interface{}, r.Intn(3))
+		for i := range a {
+			a[i] = float64(r.Intn(3))
+		}
+		return a
 	}
-	return float64(r.Intn(4))
 }
 func genGV(r *Rng, c CfgD) GV {
 	switch x := genScalar(r, c).(type) {
+	case nil:
+		return GV{K: "null"}
+	case bool:
+		return GV{K: "b", B: x}
+	case []interface{}:
+		g := GV{K: "arr", A: []int{}}
+		for _, e := range x {
+			g.A = append(g.A, int(e.(float64)))
+		}
+		return g
 	case string:
 		return GV{K: "s", S: x}
 	case float64:
@@ -978,6 +1051,18 @@ func genEvent(r *Rng, c CfgD, vi viewInfo) Ev {
 					e.Ch[key] = genGV(r, c)
 				}
 			}
+			// a property that is present with value null: delete it, set it to null again, or change it
+			if len(vi.nulls) > 0 && r.Chance(45) {
+				key := r.Pick(vi.nulls)
+				switch x := r.Intn(100); {
+				case x < 35:
+					e.Ch[key] = GV{K: "del"}
+				case x < 55:
+					e.Ch[key] = GV{K: "null"}
+				default:
+					e.Ch[key] = genGV(r, c)
+				}
+			}
 			return e
 		case k < 78:
 			return Ev{Op: "create", Data: genRes(r, c, r.Chance(5))}
@@ -1023,12 +1108,12 @@ func evFits(c CfgD, e Ev) bool {
 	switch e.Op {
 	case "change":
 		for _, g := range e.Ch {
-			if c.Ty == "num" && g.K == "s" {
+			if c.Ty == "num" && !g.isNum() && g.K != "del" {
 				return false
 			}
 		}
 	case "add":
-		return !(c.Ty == "num" && e.V.K == "s")
+		return !(c.Ty == "num" && !e.V.isNum())
 	case "create":
 		return e.Data.fits(c)
 	}
@@ -1109,6 +1194,23 @@ func (b *batch) runCase(r *Rng, cr *caseRun) {
 		}
 		if !evFits(c, e) {
 			cr.tags["ill-typed"] = true
+		}
+		if e.Op == "change" {
+			for k, g := range e.Ch {
+				old, present := vi.vals[k]
+				switch {
+				case present && old == nil && g.K == "del":
+					cr.kinds["null:delete-null-property"]++
+				case present && old == nil && g.K == "null":
+					cr.kinds["null:null-to-null"]++
+				case present && old == nil:
+					cr.kinds["null:null-to-value"]++
+				case g.K == "null" && present:
+					cr.kinds["null:value-to-null"]++
+				case g.K == "null":
+					cr.kinds["null:absent-to-null"]++
+				}
+			}
 		}
 		cr.calls = nil
 		panicked := b.fire(cr, e)
